@@ -2,7 +2,8 @@
    Property theorems only.  Models: theories/OmenLevel.v (trainer tables after
    smoothing, find_omen_level, the IP/EP/CP/LN writers, OmenScorer's readers and
    parse, the guesser's reader view) and theories/OmenSpec.v (what the Markov
-   generator must emit per level).  Proofs: theories/OmenLevelProofs.v. *)
+   generator must emit per level).  Proofs: theories/OmenLevelProofs.v; the translator
+   tie at the end: theories/OmenRt.v, gen/OmenLevel_gen.v, theories/OmenLevelGenProofs.v. *)
 From Coq Require Import List Arith NArith ZArith.
 From Pcfg Require Import OmenSpec OmenLevel OmenLevelProofs.
 From PcfgGen Require Import Consts_gen.
@@ -138,3 +139,67 @@ Proof. reflexivity. Qed.
 Theorem C11_source_trainer_rejects_linebreaks :
   forallb (fun c => existsb (N.eqb c) trainer_rejected_chars) (TABc :: guesser_linebreaks) = true.
 Proof. vm_compute. reflexivity. Qed.
+
+(* ---- second tie to the source: gen/OmenLevel_gen.v is the translation of the Python
+   text of find_omen_level (lib_trainer/omen/evaluate_password.py) and OmenScorer.parse
+   (lib_scorer/omen_scorer.py) (harness/translate_omen_level.py, redone on every run).
+   It equals the model the theorems above are about: ints are Z, `return -1` is the
+   model's None ([levelZ]), a KeyError of a dict subscript is the model's None of the
+   lookup and is what `except KeyError` catches, fuel bounds the while loop.  The
+   hypotheses are boolean: [lvl_wfb] (ngram >= 1, min_length >= 1, max_length within
+   ln_lookup: elsewhere Python raises IndexError or a slice bound turns negative) and
+   [wf_scorerb] (ngram >= 1, or ngram = -1 and no CP line); the tables the theorems
+   above are about satisfy them.  These come LAST: the Require fails when the
+   translation or its equality proofs no longer check. *)
+From Pcfg Require Import OmenRt OmenLevelGenProofs.
+From PcfgGen Require Import OmenLevel_gen.
+
+Theorem C11_source_find_omen_level_is_model :
+  forall T s fuel, lvl_wfb T = true -> length s < fuel ->
+  py_find_omen_level fuel T s = Ok (levelZ (trainer_level T s)).
+Proof. exact gen_find_omen_level_eq. Qed.
+
+Theorem C11_source_scorer_parse_is_model :
+  forall Sc s fuel, wf_scorerb Sc = true -> length s < fuel ->
+  py_scorer_parse fuel Sc s = Ok (levelZ (scorer_level Sc s)).
+Proof. exact gen_scorer_parse_eq. Qed.
+
+(* the well-formedness predicates hold for the tables of the theorems above and for
+   what the scorer's loader builds from the files the trainer writes *)
+Theorem C11_source_wf_from_model :
+  (forall T, wf_ttab T -> lvl_wfb T = true) /\ (forall T, wf_ttabb T = true -> lvl_wfb T = true) /\
+  (forall T, wf_ttab T -> wf_scorerb (load_s (write T)) = true).
+Proof. exact (conj wf_ttab_lvl_wfb (conj wf_ttabb_lvl_wfb load_s_wf_scorerb)). Qed.
+
+(* C11_scorer_eq_trainer over the translated functions: on the files the trainer writes the
+   translated OmenScorer.parse returns what the translated find_omen_level returns, for
+   every string (any length, any characters), -1 included *)
+Theorem C11_scorer_eq_trainer_translated :
+  forall T s fuel, wf_ttab T -> length s < fuel ->
+  py_scorer_parse fuel (load_s (write T)) s = py_find_omen_level fuel T s.
+Proof. exact gen_scorer_eq_trainer. Qed.
+
+(* ... and the guesser: the strings its generator must emit at target level L are exactly
+   the strings the translated find_omen_level puts at level L *)
+Theorem C11_guesser_iff_translated :
+  forall T, wf_ttab T -> levels_le guesser_max_level T ->
+  exists G, load_g (write T) = Some G /\ wf_tables G /\
+  forall s L fuel, length s < fuel ->
+    (In s (level_strings G (Z.of_nat L)) <-> py_find_omen_level fuel T s = Ok (Z.of_nat L)).
+Proof. exact gen_guesser_iff. Qed.
+
+Theorem C11_translated_hypotheses_satisfiable :
+  wf_ttab T_r9 /\ lvl_wfb T_r9 = true /\ wf_scorerb (load_s (write T_r9)) = true /\
+  py_find_omen_level 5 T_r9 [97%N; 98%N] = Ok 1%Z /\
+  py_scorer_parse 5 (load_s (write T_r9)) [97%N; 98%N] = Ok 1%Z /\
+  py_find_omen_level 5 T_r9 [98%N; 97%N; 98%N; 97%N] = Ok 10%Z /\
+  py_scorer_parse 5 (load_s (write T_r9)) [98%N; 97%N; 98%N; 97%N] = Ok 10%Z /\
+  py_find_omen_level 5 T_r9 [97%N] = Ok (-1)%Z /\ py_find_omen_level 5 T_r9 [97%N; 97%N] = Ok (-1)%Z /\
+  py_scorer_parse 5 (load_s (write T_r9)) [97%N; 97%N] = Ok (-1)%Z /\
+  py_scorer_parse 5 (mk_scorer None [(0, [])] [] [10; 3; 4]) [97%N] = Ok (-1)%Z.
+Proof. exact gen_level_example. Qed.
+
+Print Assumptions C11_source_find_omen_level_is_model.
+Print Assumptions C11_source_scorer_parse_is_model.
+Print Assumptions C11_scorer_eq_trainer_translated.
+Print Assumptions C11_guesser_iff_translated.
